@@ -7,211 +7,24 @@ every grid point, never NaN).
 """
 from __future__ import annotations
 
-import copy
-import fractions
-import json
-import random
-
 import core
 import ptcheck
 import ptgen
 
-F = fractions.Fraction
 PID = 'C01'
-ASPECTS = ('samples',)
 
 
-def _descs(ctx, n_random, n_malformed, depth):
-    descs = []
-    base = ctx.fork('random').getrandbits(48)
-    for i in range(n_random):
-        descs.append({'family': 'random', 'seed': base + i, 'depth': depth, 'pid': PID, 'windows': False})
-    base = ctx.fork('malformed').getrandbits(48)
-    for i in range(n_malformed):
-        descs.append({'family': 'malformed', 'seed': base + i, 'pid': PID, 'windows': False})
-    return descs
+def in_pf11(rec, v) -> bool:
+    """violation inside the recorded class of PF-11: a wrong value on a channel that a ParallelChannelPT
+    overwrites below an enclosing transformation that applies to it"""
+    return v['clause'] == 'value' and v.get('channel') in rec['meta']['pf11']
 
 
-def _exhaustive_descs(max_depth):
-    out = []
-    for i, spec in enumerate(ptgen.exhaustive_specs(max_depth)):
-        out.append({'family': 'exhaustive', 'seed': i, 'spec': spec, 'pid': PID, 'windows': False})
-    return out
+def checker(ctx) -> ptcheck.Checker:
+    return ptcheck.Checker(ctx, PID, ('samples',),
+                           'create_program/to_waveform/get_sampled vs QP.PT.createProgram/Loop.sample',
+                           want_samples=True, want_windows=False, known_classes={'PF-11': in_pf11})
 
-
-def known_pf11(ctx) -> bool:
-    return any(k.get('finding') == 'PF-11' for k in ctx.findings.for_property(PID))
-
-
-def assess(ctx, rec, count=True):
-    """diff against the model, judge against the spec; returns (diffs, violations, known)"""
-    reply = rec['reply']
-    impl = rec['impl']
-    diffs = ptcheck.diff_model(impl, reply['model'], reply['tdur'], ASPECTS)
-    viols = ptcheck.judge(rec, reply, ASPECTS)
-    known = []
-    if viols and known_pf11(ctx) and rec['meta']['pf11']:
-        rest = []
-        for v in viols:
-            if v['clause'] == 'value' and v.get('channel') in rec['meta']['pf11']:
-                known.append(v)
-            else:
-                rest.append(v)
-        viols = rest
-    if count:
-        ctx.case(rec['line'], nontrivial=impl['status'] == 'ok' and len(rec['meta']['kinds']) > 1)
-        ctx.count('family:' + rec['label'])
-        ctx.count('impl:' + impl['status'] + (':' + impl['error'] if impl['status'] == 'error' else ''))
-        ctx.count('spec:' + reply['spec']['status'] + (':' + reply['spec']['error'] if reply['spec']['status'] == 'error' else ''))
-        for k in set(rec['meta']['kinds']):
-            ctx.count('kind:' + k)
-        ctx.count('depth:%d' % rec['meta']['depth'])
-        if rec['case'].get('fault'):
-            ctx.count('fault:' + rec['case']['fault'])
-        if impl['status'] == 'ok':
-            ctx.count('grid-points', len(rec['grid']) * (len(impl['chans']) if isinstance(impl['chans'], list) else 0))
-            if reply['spec']['status'] == 'ok':
-                amb = sum(1 for vals in reply['spec'].get('adm', {}).values() for pt_vals in vals if len(pt_vals) > 1)
-                if amb:
-                    ctx.count('grid-points-at-junction-inside-reversal', amb)
-            if rec['meta']['drops']:
-                ctx.count('with-dropped-channel')
-        if impl['status'] == 'ok' and reply['spec']['status'] == 'error':
-            ctx.count('spec-undefined-but-instantiated')
-    return diffs, viols, known
-
-
-def report(ctx, rec, diffs, viols, known):
-    if known:
-        ctx.known_finding('PF-11', 'ParallelChannelPT below a transformation: %s' % known[0]['what'])
-        ctx.count('known:PF-11')
-    if viols:
-        # shrink the first few violating inputs only (each shrink costs a few seconds), report every one
-        n_shrunk = ctx.extra.setdefault('shrunk', 0)
-        small = rec
-        if n_shrunk < 4:
-            ctx.extra['shrunk'] = n_shrunk + 1
-            small = shrink(ctx, rec, viols[0])
-        ctx.violation('%s [%s]' % (viols[0]['what'], summary(small)),
-                      ptcheck.replay_record(small, viols[0]['what'], {'clause': viols[0]['clause'], 'original': rec['case']}))
-    elif diffs and not known:
-        ctx.drift('create_program/get_sampled vs QP.PT.createProgram/Loop.sample', rec['case'], diffs[:3], 'see model')
-
-
-def summary(rec) -> str:
-    return 'kinds=%s params=%s cm=%s' % ('/'.join(rec['meta']['kinds']), rec['case']['params'], rec['case']['cm'])
-
-
-# ------------------------------------------------------------------------------------------------
-# failing-input search: shrink a violating case while the judge still says `violates`
-# ------------------------------------------------------------------------------------------------
-
-def _candidates(spec):
-    """smaller spec trees: replace a node by one of its children, drop sequence parts, drop decorations"""
-    out = []
-
-    def rec(node, rebuild):
-        for c in ptgen.children(node):
-            out.append(rebuild(copy.deepcopy(c)))
-        k = node['k']
-        if k == 'seq' and len(node['subs']) > 1:
-            for i in range(len(node['subs'])):
-                n = copy.deepcopy(node)
-                del n['subs'][i]
-                out.append(rebuild(n))
-        for key in ('meas', 'cons'):
-            if node.get(key):
-                n = copy.deepcopy(node)
-                n[key] = []
-                out.append(rebuild(n))
-        if k == 'rep' and node['count'] not in ('1', '2'):
-            for cnt in ('1', '2'):
-                n = copy.deepcopy(node)
-                n['count'] = cnt
-                out.append(rebuild(n))
-        if k == 'for' and node['range'] != ['0', '2', '1']:
-            n = copy.deepcopy(node)
-            n['range'] = ['0', '2', '1']
-            out.append(rebuild(n))
-        if k == 'table':
-            for ci, (ch, es) in enumerate(node['entries']):
-                if len(es) > 2:
-                    for i in range(len(es)):
-                        n = copy.deepcopy(node)
-                        del n['entries'][ci][1][i]
-                        out.append(rebuild(n))
-        # descend
-        if k in ('seq', 'amulti'):
-            for i, c in enumerate(node['subs']):
-                def rb(x, i=i, node=node):
-                    n = copy.deepcopy(node)
-                    n['subs'][i] = x
-                    return rebuild(n)
-                rec(c, rb)
-        elif k == 'aarith':
-            for key in ('lhs', 'rhs'):
-                def rb(x, key=key, node=node):
-                    n = copy.deepcopy(node)
-                    n[key] = x
-                    return rebuild(n)
-                rec(node[key], rb)
-        elif 'body' in node:
-            def rb(x, node=node):
-                n = copy.deepcopy(node)
-                n['body'] = x
-                return rebuild(n)
-            rec(node['body'], rb)
-
-    rec(spec, lambda x: x)
-    return out
-
-
-def evaluate_given(ctx, cases, label='search'):
-    descs = [{'family': 'given', 'seed': i, 'case': c, 'pid': PID, 'windows': False, 'label': label}
-             for i, c in enumerate(cases)]
-    recs = []
-    for d in descs:
-        try:
-            r = ptcheck.work(d)
-        except Exception:  # noqa -- a candidate that cannot be constructed
-            r = None
-        if r is not None:
-            recs.append(r)
-    if not recs:
-        return []
-    answers = core.Lean.run([r['line'] for r in recs])
-    for r, a in zip(recs, answers):
-        r['reply'] = ptgen.parse_reply(a)
-    return recs
-
-
-def shrink(ctx, rec, viol, rounds=6):
-    """delta debugging on the spec tree; a candidate is kept if the judge reports the same clause"""
-    best = rec
-    for _ in range(rounds):
-        cands = _candidates(best['case']['spec'])[:60]
-        cases = []
-        for s in cands:
-            c = copy.deepcopy(best['case'])
-            c['spec'] = s
-            cases.append(c)
-        cases.append(dict(copy.deepcopy(best['case']), cm={}))
-        cases.append(dict(copy.deepcopy(best['case']), mm=None))
-        progressed = False
-        for r in evaluate_given(ctx, cases):
-            _d, vs, _k = assess(ctx, r, count=False)
-            if any(v['clause'] == viol['clause'] for v in vs) and len(r['line']) < len(best['line']):
-                best = r
-                progressed = True
-                break
-        if not progressed:
-            break
-    return best
-
-
-# ------------------------------------------------------------------------------------------------
-# run / replay
-# ------------------------------------------------------------------------------------------------
 
 def run(ctx: core.Ctx):
     ctx.rule = ('random well-formed template trees over all 13 node kinds built from the real qupulse classes '
@@ -225,60 +38,24 @@ def run(ctx: core.Ctx):
         'IEEE-754 arithmetic is exact on the generated dyadic numbers (power-of-two segment lengths and divisors)',
         'sympy parses, simplifies and lambdifies the generated rational expressions according to their mathematical meaning',
         'function templates are generated affine in t; table templates never end in a zero-length segment',
-        'at a discontinuity strictly inside a time reversed part either one-sided limit is accepted (see notes/C01.md)',
+        'at a discontinuity strictly inside a time reversed part either one-sided limit is accepted (notes/C01.md)',
     ]
+    ck = checker(ctx)
     for crec in ctx.corpus():
-        replay(ctx, crec, from_corpus=True)
+        ck.replay(crec, from_corpus=True)
         ctx.corpus_replayed += 1
     depth = 4 if ctx.quick else 6
-    descs = _exhaustive_descs(3)
+    descs = [ck.desc(family='exhaustive', seed=i, spec=s) for i, s in enumerate(ptgen.exhaustive_specs(3))]
     ctx.exhaustive_spaces.append('all nestings of depth <= 3 over two atoms (table with ramp, parametrised constant) with '
                                  'wrappers rep(2), rep(0 by parameter), iteration, mapping, scalar arithmetic, reversal, '
                                  'parallel channel and binary sequencing: %d trees' % len(descs))
-    descs += _descs(ctx, ctx.n(900, 30000), ctx.n(150, 3000), depth)
-    recs = ptcheck.run_descs(ctx, descs)
-    for rec in recs:
-        diffs, viols, known = assess(ctx, rec)
-        if diffs or viols or known:
-            ctx.disagreements += 1 if (diffs or viols) else 0
-            report(ctx, rec, diffs, viols, known)
-    replay_known(ctx)
-
-
-def replay_known(ctx):
-    """the recorded witness of every open known finding is replayed on the implementation"""
-    for kf in ctx.findings.for_property(PID):
-        w = kf.get('witness')
-        if not w:
-            continue
-        recs = evaluate_given(ctx, [w], label='known-finding')
-        for r in recs:
-            _d, viols, known = assess(ctx, r, count=False)
-            if known:
-                ctx.known_finding(kf['finding'], '%s: %s' % (kf.get('what', ''), known[0]['what']))
-            elif viols:
-                ctx.violation('known-finding witness violates outside the recorded class: %s' % viols[0]['what'],
-                              ptcheck.replay_record(r, viols[0]['what']))
+    base = ctx.fork('random').getrandbits(48)
+    descs += [ck.desc(family='random', seed=base + i, depth=depth) for i in range(ctx.n(900, 30000))]
+    base = ctx.fork('malformed').getrandbits(48)
+    descs += [ck.desc(family='malformed', seed=base + i) for i in range(ctx.n(150, 3000))]
+    ck.run_batch(descs)
+    ck.replay_known()
 
 
 def replay(ctx: core.Ctx, rec: dict, from_corpus: bool = False) -> bool:
-    case = rec.get('case')
-    if case is None:
-        return True
-    grid = [F(t) for t in rec['grid']] if rec.get('grid') else None
-    desc = {'family': 'given', 'seed': 0, 'case': case, 'pid': PID, 'windows': False, 'label': 'corpus' if from_corpus else 'replay'}
-    if grid:
-        desc['grid'] = grid
-    r = ptcheck.work(desc)
-    if r is None:
-        return True
-    r['reply'] = ptgen.parse_reply(core.Lean.run([r['line']])[0])
-    diffs, viols, known = assess(ctx, r, count=from_corpus)
-    if known:
-        ctx.known_finding('PF-11', known[0]['what'])
-    if viols:
-        ctx.violation('%s [%s]' % (viols[0]['what'], summary(r)), ptcheck.replay_record(r, viols[0]['what']))
-        return False
-    if diffs:
-        ctx.drift('replayed case: model and implementation differ', case, diffs[:3], 'see model')
-    return True
+    return checker(ctx).replay(rec, from_corpus)
